@@ -80,6 +80,15 @@ def rule_extrapolate(ctx: Ctx) -> RuleResult:
         if isinstance(v, ast.Call) and isinstance(v.func, ast.Attribute) and v.func.attr == "replace":
             why = f"`{txt}`: a replacement over the whole type name also rewrites the basetype when it contains the key name"
     if ok:
+        # ... and the key is the placeholder's name: what precedes ':' in the template part, without the braces
+        from ..shape import inline_locals as _il
+
+        kd = [d for d in flow.defs_reaching(nd[0].node, "key")] if nd else []
+        ktxt = norm(_il(f, kd[0].value, None)) if len(kd) == 1 and kd[0].value is not None else ""
+        if kd and not ((".split(':')[0]" in ktxt or ".partition(':')[0]" in ktxt) and "'{'" in ktxt and "'}'" in ktxt) and "get_keys" not in ktxt:
+            ok = False
+            why = f"a key that is not the placeholder name of the template part (`key = {ktxt[:60]}`)"
+    if ok:
         res.ok("R-NAME generated name", "basetype + separator + key, with basetype = type.split(separator)[0]")
     else:
         res.violation([EX, "generated name"], f"extrapolate_templates names generated types by {why or 'something else than basetype + separator + key'}",
